@@ -94,6 +94,11 @@ def run(case):
         viol.append(V("finite_difference_run_raises", exc=repr(e)[:300],
                       outside=len(obs.outside)))
         return dict(viol=viol, outcome="exception:" + type(e).__name__)
+    if obs.nonfinite:
+        # the objective itself returned inf/nan at a finite point (overflow far away from
+        # the box under the 0.3 step letter): inf/nan-returning objectives are outside the
+        # alphabets (DESIGN.md section 8): counted, not judged
+        return dict(viol=[], outcome="objective_returned_nonfinite", stats={"nonfinite": 1})
     if obs.outside:
         k, idx, x = obs.outside[0]
         viol.append(V("stencil_point_outside_box", x=x, lb=p.lb, ub=p.ub,
